@@ -30,9 +30,40 @@ def _alias(ir):
     ArrayProxy used directly (not value-cast): semantically identical to const / array."""
     if ir[0] == "pyint":
         return ["const", ir[1]]
+    if ir[0] == "pybool":
+        return ["constsh", int(ir[1]), 1, False]
+    if ir[0] == "pyenum":
+        w, sg, members = PYENUMS[ir[1]][1:]
+        return ["constsh", members[ir[2]], w, sg]
     if ir[0] == "array_raw":
         return ["array", ir[1], ir[2]]
     return ir
+
+
+# Enumeration members used directly as operands: (kind, width, signed, members); the member is cast with the
+# shape of its class (the narrowest shape holding every member, or the declared one).
+PYENUMS = [("IntEnum", 3, False, {"A": 1, "B": 5}), ("IntEnum", 2, True, {"N": -2, "P": 1}),
+           ("amaranth", 4, False, {"X": 3, "Y": 9}), ("amaranth", 3, True, {"M": -4, "Q": 2}), ("Enum", 2, False, {"U": 0, "V": 3})]
+_ENUM_CLASSES = {}
+
+
+def pyenum_member(idx, name):
+    if idx not in _ENUM_CLASSES:
+        import enum
+        from amaranth.hdl import Shape
+        from amaranth.lib import enum as aenum
+        kind, w, sg, members = PYENUMS[idx]
+        if kind == "IntEnum":
+            _ENUM_CLASSES[idx] = enum.IntEnum(f"IE{idx}", members)
+        elif kind == "Enum":
+            _ENUM_CLASSES[idx] = enum.Enum(f"PE{idx}", members)
+        else:
+            meta = type(aenum.Enum)
+            ns = meta.__prepare__(f"AE{idx}", (aenum.Enum,), shape=Shape(w, sg))
+            for k, v in members.items():
+                ns[k] = v
+            _ENUM_CLASSES[idx] = meta(f"AE{idx}", (aenum.Enum,), ns, shape=Shape(w, sg))
+    return _ENUM_CLASSES[idx][name]
 
 
 class IllFormed(Exception):
@@ -307,6 +338,10 @@ def build(ir, sigs):
         return Const(ir[1])
     if op == "pyint":
         return ir[1]                 # a bare Python integer (exercises the reflected operators)
+    if op == "pybool":
+        return bool(ir[1])
+    if op == "pyenum":
+        return pyenum_member(ir[1], ir[2])
     if op == "constsh":
         return Const(ir[1], Shape(ir[2], bool(ir[3])))
     B = lambda x: build(x, sigs)
